@@ -158,6 +158,13 @@ func (b *c10B) greetNoCaps() {
 // too (the reader goroutine waits until it was read), without any further bytes on the wire.
 type c10Quoted string
 
+// greetCaps: a greeting announcing exactly these capabilities
+func (b *c10B) greetCaps(caps string) {
+	s := "* OK [CAPABILITY " + caps + "] hi"
+	b.send(fmt.Sprintf("g:%d", len(s)+2), s+"\r\n")
+	b.greetLen = b.total
+}
+
 func (b *c10B) greet() {
 	s := "* OK [CAPABILITY " + c10Caps + "] hi"
 	b.send(fmt.Sprintf("g:%d", len(s)+2), s+"\r\n")
